@@ -105,3 +105,23 @@ Proof.
   intros [Hd A] Hi Hx E. destruct (rch_remove_min_is_min s (Some n) s' Hd Hi Hx E) as (x & Hn & Hpos & _).
   exists x. split; [done|]. destruct (A n x Hn Hpos) as [|Hin]; [done|]. by apply elem_of_nil in Hin.
 Qed.
+
+(* ---- the heap holds valid nodes only (debug builds, up to the first failing operation) *)
+From Incr.Proofs Require Import HeapValid FrameHeapValid.
+
+Lemma VNx_init max_height : VNx [] (init_state max_height true).
+Proof. split; [done|]. intros n x Hx. done. Qed.
+
+Lemma history_heap_valid fuel max_height ops :
+  while_ok (run_history fuel max_height true ops) (VNx []).
+Proof. unfold run_history. apply run_heap_valid. apply VNx_init. Qed.
+
+(* what the stabilise loop takes out of the heap is a valid node: it never recomputes an invalid one *)
+Lemma popped_node_is_valid s n s' :
+  VNx [] s -> rch_inv s -> rch_extra s ->
+  rch_remove_min s = (Ok (Some n), s') ->
+  exists x, nodes s !! n = Some x /\ n_valid x = true.
+Proof.
+  intros [Hd A] Hi Hx E. destruct (rch_remove_min_is_min s (Some n) s' Hd Hi Hx E) as (x & Hn & Hpos & _).
+  exists x. split; [done|]. destruct (A n x Hn Hpos) as [|Hin]; [done|]. by apply elem_of_nil in Hin.
+Qed.
